@@ -1,6 +1,7 @@
 package c01
 
 import (
+	"errors"
 	"fmt"
 	"math/big"
 	"math/bits"
@@ -14,6 +15,7 @@ import (
 	"github.com/bronlabs/bron-crypto/pkg/mpc"
 	"github.com/bronlabs/bron-crypto/pkg/mpc/sharing"
 	"github.com/bronlabs/bron-crypto/pkg/mpc/sharing/accessstructures"
+	"github.com/bronlabs/bron-crypto/pkg/mpc/sharing/accessstructures/hierarchical"
 
 	"verifmc/catalog"
 	"verifmc/engine"
@@ -220,10 +222,29 @@ func cached[T any](key string, mk func() (T, error)) (T, error) {
 	return ce.v.(T), nil
 }
 
+// errOutsideDomain: the (policy, identifier assignment, field) triple is refused by the library's documented
+// precondition for hierarchical sharing (hierarchical.CheckConstraints: identifiers increasing with the level and
+// Tassa's field-size condition, which the "large" identifiers violate once the last threshold reaches 4). Whether
+// that precondition is decided correctly is C02's subject; here such a triple is simply not a signing configuration.
+var errOutsideDomain = errors.New("outside the documented domain of hierarchical sharing")
+
 // baseShards returns (cached) base shards of structure s under assignment a over the group, made by kg.
 func baseShards[E algebra.PrimeGroupElement[E, S], S algebra.PrimeFieldElement[S]](groupName string, group algebra.PrimeGroup[E, S], s *structure, a catalog.IDAssignment, kg proto.C01Keygen) (map[sharing.ID]*mpc.BaseShard[E, S], error) {
 	key := fmt.Sprintf("base|%s|%s|%s|%s", groupName, s.e.Name, a.Name, kg)
 	return cached(key, func() (map[sharing.ID]*mpc.BaseShard[E, S], error) {
+		if s.e.P.Kind == policy.Hierarchical {
+			h, err := catalog.BuildHierarchical(s.e.P, a.IDs)
+			if err != nil {
+				return nil, err
+			}
+			field, ok := group.ScalarStructure().(algebra.PrimeField[S])
+			if !ok {
+				panic(engine.HarnessError{Msg: "scalar structure of " + groupName + " is not a prime field"})
+			}
+			if err := hierarchical.CheckConstraints(field, h); err != nil {
+				return nil, fmt.Errorf("%w: %v", errOutsideDomain, err)
+			}
+		}
 		return proto.C01BaseShards(kg, group, build(s, a), a.IDs, engine.Seed(), key)
 	})
 }
@@ -373,6 +394,17 @@ func (o *once) Failf(key, format string, a ...any) {
 		o.first[key] = fmt.Sprintf(format, a...)
 	}
 	o.count[key]++
+}
+
+// outside reports whether err says the configuration is outside the documented domain; the execution is then
+// marked trivial.
+func outside(x *engine.X, err error, where string) bool {
+	if !errors.Is(err, errOutsideDomain) {
+		return false
+	}
+	x.Trivial()
+	x.Observe(where, "refused-as-documented")
+	return true
 }
 
 func (o *once) flush() {
